@@ -21,6 +21,12 @@ CLAIMED = {
  "C13": dict(design="6 (C13)", technique="Coq proof (digit arithmetic by lia for all integers, verifier iff, completeness, special soundness) + differential correspondence + assembled-constraint monitor",
    text="Machine-checked theorems (Properties/C13.v): prover refuses every negative and accepts every non-negative i64; nine base-128 digits of v in [0,2^63) recompose to v; any nine digits in [0,128) sum to at most 2^63-1 < q (no wrap); honest constraints verify against c*v + commitment scalar and reject any other link; range_verify iff nine signature-proof relations and the weighted response sum; special soundness: an accepted constraint (two transcripts) yields per digit a message with a valid range-key signature whose weighted sum is the linked value; validate iff the i-th signature verifies on i. Tied to /repo on the i64 lattice, with constraints assembled from published digit signatures (all-maximal, swapped, foreign digit signature, digit 128 claim, outside-range link, 8/10 proofs) and substituted parameter sets.",
    note="Trusted: as C11. 'No constraint verifies outside the range' additionally needs: only the 128 published digit signatures exist for the discarded key (PS unforgeability) - named, not proved. No axioms."),
+ "C01": dict(design="6 (C01)", technique="Coq proof (verifier = exact relation; special soundness with slot equalities; transcript binding; blind-signature correctness) + differential correspondence of prover/transcript/verifier + forger-family search against the real merchant",
+   text="PARTIAL proof. Machine-checked (Properties/C01.v), for every field, hash function, key, agreed values and proof: merchant::initialize's acceptance is exactly two Schnorr relations + eight response-scalar equations and it blind-signs the proof's own commitments; two accepting transcripts with one first message yield openings whose slots are the agreed channel id and balances, one shared lock and the close tag; the hashed transcript determines the key, agreed values, both (C,T) pairs, the four revealed commitment scalars and the context; blind signatures on such commitments unblind to signatures on exactly those messages and on no single-slot change; honest proofs are accepted under Fiat-Shamir for every hash. Tied to /repo by reproducing honest proofs byte for byte from recovered randomness, comparing the recorded hashed chunks with the model transcript, comparing merchant decisions with the model on honest and forged proofs, and by running the forger family (honest-but-lying, per-relation, post-challenge choice of revealed scalars / T) against the real merchant on every run.",
+   note="Not formalised: the rewinding/forking step from special soundness + binding to 'no efficient prover' (random-oracle model) and discrete-log hardness (uniqueness of openings). The forger family is search, not proof. Trusted: Coq kernel + vm_compute, bls12_381/sha3 as modelled, harness/driver, the verif-hooks recorder. No axioms."),
+ "C02": dict(design="6 (C02)", technique="Coq proof (verifier = exact relation; special soundness incl. valid token signature and digit signatures; transcript binding; one-token-two-nonces) + differential correspondence (89 named random values recovered) + forger-family search against the real merchant",
+   text="PARTIAL proof. Machine-checked (Properties/C02.v): merchant::allow_payment's acceptance is exactly the conjunction of four sub-proof relations, two range relations and nine equations; two accepting transcripts with one first message yield: a valid merchant signature on an old state containing the given nonce, openings of the new state / close state / lock commitment with equal channel ids, balances moved by exactly the amount, shared new lock, close tag, the returned commitment opening to the old lock, and each new balance as a weighted sum of nine messages carrying valid range-key signatures; the transcript binds every non-response field; one proof accepted under two nonces (or two amounts) with one challenge forces c = 0, and at most one challenge is accepted per proof; honest payments are accepted for every randomness. Tied to /repo by reproducing whole PayProofs byte for byte in the Coq prover from recovered randomness, transcript and verifier correspondence, and the forger family on every run.",
+   note="Not formalised: rewinding/random-oracle step; PS unforgeability ('merchant-issued' token, digits confined to [0,128)); discrete-log hardness. Forger family is search. Trusted as C01. No axioms."),
 }
 PENDING_REASON = "check under construction in this session (DESIGN.md section 10 build order); nothing is claimed for it yet"
 def main():
